@@ -1030,6 +1030,8 @@ class DContract(MEContract, c08.MPSContract):
                 return (is_z3(v) and z3.is_real(v)) or isinstance(v, float)
             if cname in ("Integral", "numbers.Integral"):
                 return is_int(v)
+            if cname in ("Real", "numbers.Real"):
+                return is_int(v) or (is_z3(v) and z3.is_real(v)) or isinstance(v, float)
             raise Unsupported(f"isinstance(..., {cname})")
         if name == "__getitem__" and isinstance(args[0], Ref) and args[0].kind == "BRA":
             bra, i = args
@@ -1961,7 +1963,10 @@ class Solve(DContract):
     def loops(self):
         return {0: Loop("for _ in range(max_sweeps)", self.inv,
                         retype={"previous_direction": self.retype_prev,
-                                "converged": lambda cx: MaybeUnbound(cx.Bool("converged_hv"), "_it0")})}
+                                # bound only after a first sweep -- unless the code binds it before the loop
+                                "converged": lambda cx: cx.Bool("converged_hv")
+                                if ("converged" in cx.env and not isinstance(cx.env["converged"], MaybeUnbound))
+                                else MaybeUnbound(cx.Bool("converged_hv"), "_it0")})}
 
     def truth_of(self, v):
         return v
